@@ -525,12 +525,11 @@ func flatBits(v Value) *Term {
 		case BoolV:
 			add(Ite(x.T, BV(1, 8), BV(0, 8)))
 		case ArrV:
-			if x.N > 64 {
-				return false
-			}
-			for i := int64(0); i < x.N; i++ {
-				add(SelectA(x.A, BV(uint64(i), 64)))
-			}
+			// an opaque 64-bit name of the whole array value (equal arrays have
+			// equal names; cheaper for the solvers than comparing the elements)
+			name := "arrname_" + sanitize(x.A.sort)
+			DeclareFun(name, []string{x.A.sort}, SBV(64))
+			add(App(name, SBV(64), x.A))
 		case GoArrV:
 			for _, e := range x.E {
 				if !walk(e) {
